@@ -19,6 +19,7 @@ type c18Params struct {
 	W       wParams `json:"w"`
 	ForMs   []int   `json:"for_ms"`
 	Twice   bool    `json:"twice,omitempty"`
+	AgainMs []int   `json:"again_ms,omitempty"` // with Twice: the second cycle begins that long after the first ended (default 200)
 	Shard   int     `json:"shard"`
 	NShards int     `json:"nshards"`
 	Sched   int     `json:"sched,omitempty"`
@@ -132,56 +133,66 @@ func c18Run(j vs.Job) *vs.JobResult {
 	seen := map[string]bool{}
 	k := 0
 	longPauses, withKeepAlive := 0, 0
+	agains := p.AgainMs
+	if len(agains) == 0 {
+		agains = []int{200}
+	}
 	for step := 1; step <= nSteps; step++ {
-		for _, ms := range p.ForMs {
-			k++
-			if k%p.NShards != p.Shard {
-				continue
-			}
-			if j.Deadline > 0 && time.Now().Unix() > j.Deadline {
-				r.Capped = "deadline"
-				break
-			}
-			wp := p.W
-			wp.Pauses = []wPause{{Step: step, ForMs: ms}}
-			if p.Twice {
-				// a second cycle 200 ms (virtual) after the first one ended
-				wp.Pauses[0].AgainAfterMs = 200
-			}
-			exec := func(prefix, prefixN []int, trace bool) *vs.ExecResult {
-				w, res := runWorld(wp, vs.Config{Trace: trace, ClockChoice: p.Sched > 0}, prefix, prefixN, nil)
-				v, o := c18Oracle(w, res)
-				if len(res.Pauses) == 0 {
-					o = "pause-missed-" + o
+		for _, ms0 := range p.ForMs {
+			for _, again := range agains {
+				ms := ms0
+				k++
+				if k%p.NShards != p.Shard {
+					continue
 				}
-				for _, pr := range res.Pauses {
-					if pr.BufAfter > 0 && pr.BufBefore > 0 && pr.BufAfter < pr.BufBefore {
-						r.Max("runs_where_the_pause_shrank_the_buffer", 1)
+				if j.Deadline > 0 && time.Now().Unix() > j.Deadline {
+					r.Capped = "deadline"
+					break
+				}
+				wp := p.W
+				wp.Pauses = []wPause{{Step: step, ForMs: ms}}
+				if p.Twice {
+					// a second cycle 200 ms (virtual) after the first one ended
+					wp.Pauses[0].AgainAfterMs = again
+				}
+				exec := func(prefix, prefixN []int, trace bool) *vs.ExecResult {
+					w, res := runWorld(wp, vs.Config{Trace: trace, ClockChoice: p.Sched > 0}, prefix, prefixN, nil)
+					v, o := c18Oracle(w, res)
+					if len(res.Pauses) == 0 {
+						o = "pause-missed-" + o
 					}
-				}
-				if len(res.Pauses) > 0 && ms >= 1500 {
-					longPauses++
-					for _, ka := range res.KeepAlives {
-						if ka >= res.Pauses[0].Begin && ka <= res.Pauses[0].End {
-							withKeepAlive++
-							break
+					for _, pr := range res.Pauses {
+						if pr.BufAfter > 0 && pr.BufBefore > 0 && pr.BufAfter < pr.BufBefore {
+							r.Max("runs_where_the_pause_shrank_the_buffer", 1)
 						}
 					}
+					if len(res.Pauses) > 0 && ms >= 1500 {
+						longPauses++
+						for _, ka := range res.KeepAlives {
+							if ka >= res.Pauses[0].Begin && ka <= res.Pauses[0].End {
+								withKeepAlive++
+								break
+							}
+						}
+					}
+					x := &vs.ExecResult{Sched: res.Sched, Outcome: o, Violation: v, Detail: wp}
+					if v != "" {
+						x.Signature = "c18:" + wp.Dir + ":" + firstWords(v, 9)
+					}
+					return x
 				}
-				x := &vs.ExecResult{Sched: res.Sched, Outcome: o, Violation: v, Detail: wp}
-				if v != "" {
-					x.Signature = "c18:" + wp.Dir + ":" + firstWords(v, 9)
+				st := vs.NewStats()
+				e := &vs.Explorer{Exec: exec, Budget: vs.Budget{Total: p.Sched, OnlyAfterStep: step}, NShards: 1, St: st, MaxViol: 1, SigSeen: seen,
+					Known: func(sig string) bool { return vs.IsKnown("C18", sig) }}
+				if j.Deadline > 0 {
+					e.Deadline = time.Unix(j.Deadline, 0)
 				}
-				return x
+				e.Explore()
+				r.AddStats(st)
+				if !p.Twice {
+					break
+				}
 			}
-			st := vs.NewStats()
-			e := &vs.Explorer{Exec: exec, Budget: vs.Budget{Total: p.Sched, OnlyAfterStep: step}, NShards: 1, St: st, MaxViol: 1, SigSeen: seen,
-				Known: func(sig string) bool { return vs.IsKnown("C18", sig) }}
-			if j.Deadline > 0 {
-				e.Deadline = time.Unix(j.Deadline, 0)
-			}
-			e.Explore()
-			r.AddStats(st)
 		}
 		unknown := 0
 		for _, v := range r.Violations {
@@ -209,7 +220,7 @@ func init() {
 		ID:    "C18",
 		Level: "model_checking",
 		Rule: "the pause begins atomically just before every scheduler step of the default schedule of a 4-chunk transfer and ends after {0.1 s, timeout-0.5 s, timeout+0.5 s, 3 x timeout} of virtual time (timeout 2 s); " +
-			"x direction x protocol 3/4 x base64 / binary over the tunnel x link latency 0/300 ms; one or two cycles; thorough: x every single schedule deviation after the pause began",
+			"x direction x protocol 3/4 x base64 / binary over the tunnel x link latency 0/300 ms; one or two cycles (the second 200 ms after the first; over the 300 ms link 50..1100 ms after it in 6 steps, also with a 16-chunk file so that the ack window fills, in both directions); thorough: x every single schedule deviation after the pause began",
 		Assumptions: []string{"pause/resume = the calls the stop/continue prompt makes (pauseTransferringFiles / resumeTransferringFiles); promptui itself is not driven",
 			"'below the timeout' is asserted for pauses shorter than timeout - 0.3 s (the paused side polls every 100 ms)"},
 		TraceNote:   "explored directly on the implementation; the number counts executions replayed from recorded choice lists",
@@ -246,6 +257,16 @@ func init() {
 				n := 4
 				for s := 0; s < n; s++ {
 					jobs = append(jobs, vs.MkJob(fmt.Sprintf("pause-twice %s %d/%d", c.String(), s, n), c18Params{W: c, ForMs: []int{100, 1500}, Twice: true, Shard: s, NShards: n}))
+				}
+			}
+			// two cycles over a link with latency (the transfer is still under way when the second pause begins,
+			// with a reader that has already been waiting for a while): second cycle 50..1100 ms after the first
+			for _, c := range []wParams{{Dir: "up", Tree: "one:R:35000", Timeout: 2, LatencyMs: 300}, {Dir: "down", Tree: "one:R:35000", Timeout: 2, LatencyMs: 300},
+				// 16 chunks of 10 K: the window of unacknowledged chunks fills while the paused side holds its acks back
+				{Dir: "down", Tree: "one:R:120000", Bufsize: 10240, Timeout: 2, LatencyMs: 100}, {Dir: "up", Tree: "one:R:120000", Bufsize: 10240, Timeout: 2, LatencyMs: 100}} {
+				n := 8
+				for s := 0; s < n; s++ {
+					jobs = append(jobs, vs.MkJob(fmt.Sprintf("pause-twice-latency %s %d/%d", c.String(), s, n), c18Params{W: c, ForMs: []int{1500}, AgainMs: []int{50, 250, 450, 650, 850, 1100}, Twice: true, Shard: s, NShards: n}))
 				}
 			}
 			if tier == "thorough" {
